@@ -86,10 +86,46 @@ def export(unit, fn=(), rec=(), var=(), enum=(), callgraph=False, repo=None,
     return d
 
 
+def _ere_escape(t):
+    return "".join(("\\" + ch) if ch in "\\.[]()*+?{}|^$" else ch for ch in t)
+
+
+def export_closure(depth=2, **job):
+    """export(), then add the user functions called from the exported ones (helpers a refactoring may have
+    extracted) until nothing new turns up or `depth` rounds were made.  System-header callees are never followed."""
+    fn = list(job.get("fn") or ())
+    d = export(**dict(job, fn=fn))
+    for _ in range(depth):
+        have = {f["id"] for f in d.get("functions", [])}
+        want = set()
+
+        def scan(n):
+            if n is None:
+                return
+            if n.get("k") in ("CallExpr", "CXXMemberCallExpr", "CXXConstructExpr") and n.get("calleeId") and \
+                    n["calleeId"] not in have and not n.get("sys") and n.get("callee"):
+                want.add(n["callee"])
+            for c in n.get("c") or ():
+                scan(c)
+        for f in d.get("functions", []):
+            for b in list(f.get("body") or []) + list(f.get("inits") or []):
+                scan(b)
+        new = ["^" + _ere_escape(q) + "$" for q in sorted(want) if ("^" + _ere_escape(q) + "$") not in fn]
+        if not new or len(new) > 60:
+            break
+        fn += new
+        d = export(**dict(job, fn=fn))
+    return d
+
+
 def export_many(jobs, workers=16):
     """jobs: list of dict(kwargs for export).  Parallel."""
+    def one(j):
+        j = dict(j)
+        cl = j.pop("closure", 0)
+        return export_closure(depth=cl, **j) if cl else export(**j)
     with ThreadPoolExecutor(max_workers=workers) as ex:
-        futs = [ex.submit(export, **j) for j in jobs]
+        futs = [ex.submit(one, j) for j in jobs]
         return [f.result() for f in futs]
 
 
